@@ -41,7 +41,7 @@ class Gen:
                 distinct=True, having=True, neg=True, strcat=True, group_expr=True, agg_str=True,
                 order=True, limit=True, sel_bool=True, countd=True, nested_bool=True,
                 touch_all=False, const_pred=True, order_const=True, agg_const=True, distinct_order=True,
-                not_in_sub=True, sub_top_only=False, sel_needs_col=False)
+                not_in_sub=True, sub_top_only=False, sel_needs_col=False, derived=0.0)
 
     def __init__(self, rnd, tables=None, subq=True, joins=True, ints=INTS, strs=STRS, maxrows=4, feat=None):
         self.r = rnd
@@ -205,20 +205,53 @@ class Gen:
         return ("bin", r.choice(["=", "<", ">="]), lhs, ("scalar", sub, INT), BOOL)
 
     # --- FROM
+    def table_item(self):
+        """A base table or (feature `derived`) a derived table `(select ...) as x`: projections, computed columns
+        that cannot be simplified to a bare column (finding F32), filters, DISTINCT, grouped aggregates."""
+        r = self.r
+        t = r.choice(list(self.tables))
+        a = self.alias()
+        if r.random() >= self.f.get("derived", 0.0):
+            return ("t", t, a), [(a, c, ty) for c, ty in self.tables[t]]
+        ia = self.alias()
+        iscope = [(ia, c, ty) for c, ty in self.tables[t]]
+        base = dict(frm=("t", t, ia), where=None, grp=[], hav=None, agg=False, dist=False, ord=[], lim=-1, off=0)
+        ints = self.cols(iscope, INT)
+        if r.random() < 0.3:
+            g = r.choice(ints)
+            gcol = ("col", g[0], g[1], INT)
+            other = r.choice(ints)
+            sel = [(gcol, "d1", INT), (("agg", "count*"), "d2", INT),
+                   (("agg", r.choice(["sum", "min", "max"]), ("col", other[0], other[1], INT), INT), "d3", INT)]
+            sub = dict(base, sel=[(e, n) for e, n, _ in sel], grp=[gcol], agg=True)
+        else:
+            sel = []
+            for k in range(r.choice([2, 3])):
+                c = r.choice(iscope)
+                e = ("col", c[0], c[1], c[2])
+                if c[2] == INT and r.random() < 0.4:
+                    e = ("bin", r.choice(["+", "*"]), e, ("ci", r.choice([2, 3])), INT) if r.random() < 0.6 else \
+                        ("bin", "+", e, ("col", ints[0][0], ints[0][1], INT), INT)
+                sel.append((e, f"d{k + 1}", c[2]))
+            if not any(ty == INT for _, _, ty in sel):
+                c = r.choice(ints)
+                sel.append((("col", c[0], c[1], INT), f"d{len(sel) + 1}", INT))
+            sub = dict(base, sel=[(e, n) for e, n, _ in sel], dist=r.random() < 0.2)
+            if r.random() < 0.4:
+                sub["where"] = self.bool_expr(iscope, None, 1)
+        cols = [(n, ty) for _, n, ty in sel]
+        return ("sub", sub, a, cols), [(a, n, ty) for n, ty in cols]
+
     def from_clause(self):
         r = self.r
         names = list(self.tables)
-        t = r.choice(names)
-        a = self.alias()
-        frm = ("t", t, a)
-        scope = [(a, c, ty) for c, ty in self.tables[t]]
+        frm, scope = self.table_item()
         if not self.joins:
             return frm, scope
         n = r.choice([0, 0, 1, 1, 1, 2])
         for _ in range(n):
-            t2 = r.choice(names)
-            a2 = self.alias()
-            s2 = [(a2, c, ty) for c, ty in self.tables[t2]]
+            item2, s2 = self.table_item()
+            a2 = s2[0][0]
             jt = r.choice(self.f["jts"])
             if jt == "cross":
                 on = None
@@ -231,7 +264,7 @@ class Gen:
                     on = ("bin", "and", on, self.bool_expr(scope + s2, None, 0), BOOL)
                 elif shape == "any":
                     on = self.bool_expr(scope + s2, None, 1)
-            frm = ("join", jt, frm, ("t", t2, a2), on)
+            frm = ("join", jt, frm, item2, on)
             scope = scope + s2
         return frm, scope
 
@@ -341,7 +374,7 @@ def has_col(e):
 
 
 def has_outer_join(f):
-    if f[0] == "t":
+    if f[0] in ("t", "sub"):
         return False
     return f[1] in ("left", "right", "full") or has_outer_join(f[2]) or has_outer_join(f[3])
 
@@ -426,6 +459,8 @@ def sql_expr(e):
 def sql_from(f):
     if f[0] == "t":
         return f"{f[1]} as {f[2]}"
+    if f[0] == "sub":
+        return f"({sql_query(f[1])}) as {f[2]}"
     _, jt, l, r, on = f
     if jt == "cross":
         return f"{sql_from(l)} cross join {sql_from(r)}"
@@ -456,6 +491,8 @@ def sql_query(q):
 def from_scope(f, tables):
     if f[0] == "t":
         return [(f[2], c) for c, _ in tables[f[1]]]
+    if f[0] == "sub":
+        return [(f[2], n) for n, _ in f[3]]
     return from_scope(f[2], tables) + from_scope(f[3], tables)
 
 
@@ -499,6 +536,8 @@ def res_expr(e, scopes, tables):
 def res_from(f, outer_scopes, tables):
     if f[0] == "t":
         return ["t", f[1], len(tables[f[1]])]
+    if f[0] == "sub":
+        return ["sub", res_query(f[1], [], tables), len(f[3])]
     _, jt, l, r, on = f
     sl, sr = from_scope(l, tables), from_scope(r, tables)
     on_r = ["k", enc(True)] if on is None else res_expr(on, [sl + sr] + outer_scopes, tables)
